@@ -160,6 +160,9 @@ pub enum Fault {
     ReadErrAfter(u64),
     /// splice bytes into the server's output at stream offset `k`
     GarbageAt(u64, Vec<u8>),
+    /// malformed bytes WITHOUT a line end in place of the rest of the output at that offset, after which the server
+    /// stays connected but never writes again (a wedged peer): the bytes cannot begin any valid line
+    GarbageMuteAt(u64, Vec<u8>),
     /// every write fails from the j-th write call on
     WriteErrFrom(usize),
     /// the server closes the connection (after flushing) at the given virtual time
@@ -189,6 +192,8 @@ pub struct ArtStore {
     pub cover_ack: u64,
     /// the failing art command prints `size:`/`type:` before its ACK
     pub ack_after_partial_output: bool,
+    /// requests at an offset >= .0 (> 0) are answered with ACK code .1: the file vanished / changed while it was loaded
+    pub ack_from_offset: Option<(usize, u64)>,
 }
 
 #[derive(Clone, Debug)]
@@ -300,7 +305,7 @@ pub fn vreq_reply(k: u64, n: u64, i: u64, shape: u64) -> AFrame {
 }
 
 pub fn vfail_error(k: u64, n: u64, idx: u64, code: u64) -> AError {
-    AError { code, index: idx, command: Some("vfail".to_string()), message: format!("scripted failure {}-{}", k, n) }
+    AError { code, index: idx, command: Some("v_fail".to_string()), message: format!("scripted failure {}-{}", k, n) }
 }
 
 // ---------------------------------------------------------------------------------------------
@@ -332,6 +337,7 @@ pub struct Inner {
     pub write_calls: usize,
     // faults
     garbage_done: bool,
+    muted: bool,
     pub fault_fired: bool,
     // transport lifecycle
     pub dropped: bool,
@@ -392,6 +398,7 @@ impl World {
             c2s_written: 0,
             write_calls: 0,
             garbage_done: false,
+            muted: false,
             fault_fired: false,
             dropped: false,
             phase: Phase::Normal,
@@ -423,6 +430,9 @@ impl World {
 
     /// Queue server output, cut into chunks by the policy, with virtual delays.
     fn emit(&self, g: &mut Inner, kind: ReplyKind, bytes: Vec<u8>, changed: Vec<String>, for_lines: Vec<usize>, line_offsets: &[usize]) {
+        if g.muted {
+            return;
+        }
         g.reply_counter += 1;
         let is_idle_kind = matches!(kind, ReplyKind::Idle | ReplyKind::Noidle);
         let (segs, delays) = if is_idle_kind { (g.cfg.idle_seg.clone(), g.cfg.idle_chunk_delay.clone()) } else { (g.cfg.seg.clone(), g.cfg.chunk_delay.clone()) };
@@ -445,6 +455,16 @@ impl World {
                 g.garbage_done = true;
                 g.fault_fired = true;
                 g.push(EvKind::Fault(format!("garbage {:?} spliced at server output offset {}", String::from_utf8_lossy(&garbage), k)));
+            }
+        }
+        if let Fault::GarbageMuteAt(k, garbage) = g.cfg.fault.clone() {
+            if !g.garbage_done && k >= start && k < start + bytes.len() as u64 {
+                bytes.truncate((k - start) as usize);
+                bytes.extend_from_slice(&garbage);
+                g.garbage_done = true;
+                g.muted = true;
+                g.fault_fired = true;
+                g.push(EvKind::Fault(format!("malformed bytes {:?} without a line end at server output offset {}, then the server falls silent", String::from_utf8_lossy(&garbage), k)));
             }
         }
         let len = bytes.len();
@@ -769,8 +789,8 @@ impl World {
         }
         match name.as_str() {
             "vreq" => Ok(vreq_reply(num(0), num(1), if args.len() > 3 { num(3) } else { 0 }, num(2))),
-            // `vfail K N CODE [partial]`: fails, optionally after having printed part of its output
-            "vfail" => Err(Fail { partial: if args.len() > 3 { Some(vpartial_output(num(0), num(1))) } else { None }, error: vfail_error(num(0), num(1), idx, num(2)) }),
+            // `v_fail K N CODE [partial]`: fails, optionally after having printed part of its output
+            "v_fail" => Err(Fail { partial: if args.len() > 3 { Some(vpartial_output(num(0), num(1))) } else { None }, error: vfail_error(num(0), num(1), idx, num(2)) }),
             "ping" => Ok(AFrame::empty()),
             "close" => {
                 g.server_closed = true;
@@ -815,6 +835,11 @@ impl World {
                     return Err(Fail { partial, error: ack(code, "scripted art failure".into()) });
                 }
                 let offset = num(1) as usize;
+                if let Some((from, code)) = art.ack_from_offset {
+                    if offset >= from && from > 0 {
+                        return Err(ack(code, "scripted art failure on a continuation request".into()).into());
+                    }
+                }
                 let (data, mime) = if embedded {
                     match &art.embedded {
                         Some((d, m)) => (d.clone(), m.clone()),
@@ -854,7 +879,7 @@ impl From<AError> for Fail {
     }
 }
 
-/// What `vfail … partial` prints before failing.
+/// What `v_fail … partial` prints before failing.
 pub fn vpartial_output(k: u64, n: u64) -> AFrame {
     AFrame { fields: vec![("id".to_string(), format!("{}-{}-partial", k, n)), ("file".to_string(), "half/listed.mp3".to_string())], binary: None }
 }
